@@ -20,8 +20,9 @@ type Sym struct {
 
 // BigV: cosmossdk.io/math.Int (value) or LegacyDec (mantissa at scale 10^18).
 type BigV struct {
-	Nil bool
-	T   string
+	Nil   bool
+	T     string
+	NilIf string // non-empty (only after a state merge): the value is the nil Int/Dec iff this term holds
 }
 type Tuple []Val
 type StructV struct{ F []Val }
@@ -31,8 +32,9 @@ type Ptr struct {
 	Glob *ssa.Global
 }
 type IfaceV struct {
-	T types.Type // nil => nil interface
-	V Val
+	T     types.Type // nil => nil interface
+	V     Val
+	NilIf string // non-empty (only after a state merge): the interface is nil iff this term holds, else it is (T, V)
 }
 type Closure struct {
 	Fn    *ssa.Function
@@ -79,12 +81,15 @@ type State struct {
 	E       *Env
 	Steps   int
 	ID      int
-	Marks   map[string]Val // harness-visible ghost values
-	Choices []int          // zzvp.Choose decisions taken on this path
+	Marks   map[string]Val  // harness-visible ghost values
+	Choices []int           // zzvp.Choose decisions taken on this path
+	Asserts []pendingAssert // assertions awaiting discharge at the end of the path (one batched query)
 }
 
+type pendingAssert struct{ Label, Cond string }
+
 func (s *State) clone() *State {
-	n := &State{Heap: make(map[int]Val, len(s.Heap)), NextObj: s.NextObj, PC: append([]string{}, s.PC...), Reached: map[string]bool{}, Steps: s.Steps, ID: s.ID, Choices: append([]int{}, s.Choices...)}
+	n := &State{Heap: make(map[int]Val, len(s.Heap)), NextObj: s.NextObj, PC: append([]string{}, s.PC...), Reached: map[string]bool{}, Steps: s.Steps, ID: s.ID, Choices: append([]int{}, s.Choices...), Asserts: append([]pendingAssert{}, s.Asserts...)}
 	for k, v := range s.Reached {
 		n.Reached[k] = v
 	}
